@@ -19,6 +19,9 @@ use rbx_types::SharedString;
 use serde_json::{json, Value};
 
 pub fn content_bytes(c: i64) -> Vec<u8> {
+    if c == 1 {
+        return Vec::new(); // the empty content is a content like any other
+    }
     let mut v = vec![b'A' + c as u8; 3 + c as usize];
     v.push(0xff); // not UTF-8
     v
